@@ -385,7 +385,7 @@ def run_c05(o, tier, rng, prep):
     o.rule = "every 1st/5th prefix of specification-generated games, reached three ways (FEN of the position, position command, chain of generated successors); each key compared with the specification's from-scratch hash and with the other two"
 
 
-@prop("C10", "C10.v", THEOREMS["C10"])
+@prop("C10", "C10.v", THEOREMS["C10"], binary=True)
 def run_c10(o, tier, rng, prep):
     cases = []
     n = 150 if tier == "quick" else 4000
@@ -420,6 +420,8 @@ def run_c10(o, tier, rng, prep):
     o.rule = "position commands for random legal games and for shuffle histories with 0-6 (thorough: 0-25) repetitions interleaved with irreversible moves; the table is compared entry by entry with the model and as a multiset of counts with the rules-level replay; the harness starts from a dirty table cleared as the dispatcher does; non-trivial = some position occurs at least twice"
     o.assumptions.append("64-bit Zobrist collisions: positions are identified with keys; collision-freedom on the history at hand is assumed")
     run_search_repetition(o, tier, rng)
+    okr = repetition_reset_probes(o, tier, rng)
+    o.oblige("nothing of earlier position commands survives in the record (fresh versus used process on the binary)", okr)
 
 
 def run_search_repetition(o, tier, rng):
@@ -927,7 +929,7 @@ MATE_FENS = [
 ]
 
 
-@prop("C11", "C11.v", THEOREMS["C11"])
+@prop("C11", "C11.v", THEOREMS["C11"], binary=True)
 def run_c11(o, tier, rng, prep):
     legal = gens.filter_legal(MATE_FENS)
     roots = [(f, [], f) for f, n, _ in legal if n > 0]
@@ -1026,6 +1028,9 @@ def run_c11(o, tier, rng, prep):
                 if f.get("in") == "1":
                     ok_avoid = False
                     o.violation("input", "after iteration 2 the engine plays %s into a mate in one that could be avoided: %s" % (info, case), {"case": case, "move": info})
+    # the same two rules on the real binary, driven the way a GUI does (whole game resent before every go)
+    okb = gui_mate_sessions(o, tier, rng)
+    o.oblige("mate in one played / avoidable mate in one avoided in GUI-style sessions on the binary", okb)
     o.distinct += judged
     hist_add(o, "mate claims / mate-in-one / avoidance judgements", judged)
     o.oblige("every `score mate N` claim is true (N>0 every line; N<0 last line of a completed depth)", ok_claims)
@@ -1035,6 +1040,50 @@ def run_c11(o, tier, rng, prep):
         o.samples.append(r["case"])
     o.rule = "hand-built positions around mate and stalemate plus random <=5-piece positions from specification-generated games; every mate claim with |N| <= 3 judged by the rules-level AND/OR solver (Spec.mate_in / mated_in), stalemating moves included; non-trivial = one judged claim or move"
     o.assumptions.append("from iteration 4 on null-move pruning has no soundness theorem; those depths are judged by the solver on the sampled positions only")
+
+
+def gui_mate_sessions(o, tier, rng):
+    import blackbox
+    games = [("4r1k1/ppp2ppp/8/8/8/8/5PPP/R5K1 w - - 0 1", ["a1a5", "g8h8", "a5a1", "h8g8"]),
+             ("6k1/5ppp/8/8/8/8/r4PPP/5RK1 w - - 0 1", ["f1e1", "a2a5", "e1f1", "a5a2"]),
+             ("r5k1/5ppp/8/8/8/8/5PPP/R5K1 w - - 0 1", ["a1a8"]),
+             ("6k1/5ppp/8/8/8/8/8/R5K1 w - - 0 1", [])]
+    ok = True
+    for start, moves in games:
+        eng = blackbox.Engine(V.BINARY)
+        try:
+            eng.handshake()
+            for kk in range(2, len(moves), 2):
+                eng.send(pos_cmd(start, moves[:kk]))
+                eng.send("go wtime 130 btime 130 movestogo 1")
+                eng.read_until(lambda l: l.startswith("bestmove"), 8)
+            cmd = pos_cmd(start, moves)
+            eng.send(cmd)
+            eng.send("go wtime 475 btime 475 movestogo 1")          # 300 ms: iterations 1 and 2 finish
+            lines = eng.read_until(lambda l: l.startswith("bestmove"), 10)
+            o.evaluations += 1
+            if lines[-1] is None:
+                ok = False
+                o.violation("input", "no answer in a GUI-style session: %s" % cmd, {"case": cmd})
+                continue
+            mv = lines[-1].split(" ")[1]
+            fen = proj_to_fen(legal_after([cmd])[0])
+            lm = sorted(root_legal_moves([fen])[0])
+            sep = " " if " moves " in cmd else " moves "
+            q = ["mate\t%s\t1" % cmd] + ["mate\t%s%s%s\t1" % (cmd, sep, m) for m in lm]
+            ans = [l[2:] for l in V.run_sharded([V.DRIVER, V.ZDUMP], q) if l.startswith("S ")]
+            f0 = dict(kv.split("=") for kv in ans[0].split(" ")[1:] if "=" in kv)
+            child = {m: dict(kv.split("=") for kv in a.split(" ")[1:] if "=" in kv) for m, a in zip(lm, ans[1:])}
+            if f0.get("in") == "1":
+                if child.get(mv, {}).get("checkmate") != "1":
+                    ok = False
+                    o.violation("input", "mate in one available but %s played: %s" % (mv, cmd), {"case": cmd, "lines": lines[-4:]})
+            elif any(c.get("in") != "1" for c in child.values()) and child.get(mv, {}).get("in") == "1":
+                ok = False
+                o.violation("input", "the engine plays %s into a mate in one it could avoid: %s" % (mv, cmd), {"case": cmd, "lines": lines[-4:]})
+        finally:
+            eng.close()
+    return ok
 
 
 # ---------------------------------------------------------------- C09
@@ -1516,6 +1565,89 @@ def run_c08(o, tier, rng, prep):
     o.assumptions.append("timing and thread liveness are sampled, not proved")
 
 
+def repetition_reset_probes(o, tier, rng):
+    """the repetition record after `position` holds the described game and nothing from earlier commands,
+    observed on the real binary through the search it steers (fresh process versus used process)"""
+    import blackbox
+
+    def reply(eng, cmd, go, timeout=10):
+        eng.send(cmd)
+        eng.send(go)
+        return eng.read_until(lambda l: l.startswith("bestmove"), timeout=timeout)
+
+    def improvements(lines):
+        out = []
+        for l in lines:
+            if l and l.startswith("info"):
+                m = re.match(r"info pv (\S+).* depth (\d+) nodes (\d+) score (\S+ -?\d+)", l)
+                if m:
+                    out.append((int(m.group(2)), int(m.group(3)), m.group(4), m.group(1)))
+        return out
+
+    # the repetition record must not survive a `position` command, with or without a move list:
+    # earlier traffic repeats positions that are one move away from the probed (bare) position
+    rep_probes = [
+        ("4k3/8/8/3q4/8/8/PPP5/2KR4 w - - 0 1", ["d1d5", "e8e7", "c1d1", "e7e8", "d1c1", "e8e7", "c1d1", "e7e8", "d1c1"]),
+        ("q7/8/2k5/8/8/8/8/7K w - - 0 1", ["h1g1", "a8b8", "g1h1", "b8a8", "h1g1", "a8b8", "g1h1", "b8a8"]),
+        ("6k1/8/8/8/8/8/8/K2Q4 w - - 0 1", ["d1d2", "g8h8", "d2d1", "h8g8", "d1d2", "g8h8", "d2d1", "h8g8"]),
+        (gens.START, ["g1f3", "g8f6", "f3g1", "f6g8", "g1f3", "g8f6", "f3g1", "f6g8"]),
+    ]
+    okr = True
+    for fen, shuffle in rep_probes:
+        bare = "position startpos" if fen == gens.START else "position fen " + fen
+        fresh = blackbox.Engine(V.BINARY)
+        used = blackbox.Engine(V.BINARY)
+        try:
+            fresh.handshake()
+            used.handshake()
+            reply(used, pos_cmd(fen, shuffle), "go wtime 130 btime 130 movestogo 1")
+            if rep_probes.index((fen, shuffle)) % 2 == 0:
+                used.send("ucinewgame")          # with and without: neither may matter
+            go = "go wtime 200 btime 200 movestogo 1"
+            ia = improvements(reply(fresh, bare, go))
+            ib = improvements(reply(used, bare, go))
+            o.evaluations += 2
+            k = min(len(ia), len(ib))
+            if k == 0 or ia[:k] != ib[:k]:
+                okr = False
+                j = next((x for x in range(k) if ia[x] != ib[x]), 0)
+                o.violation("input", "after a game with repetitions the reply to a bare `%s` differs from a fresh engine's at improvement %d: fresh %s, used %s" % (
+                    bare, j, ia[j] if j < len(ia) else None, ib[j] if j < len(ib) else None), {"traffic": pos_cmd(fen, shuffle), "probe": bare, "fresh": ia, "used": ib})
+            o.distinct += 1
+        finally:
+            fresh.close()
+            used.close()
+    # the way GUIs drive an engine: the whole game so far is resent before every go, with no ucinewgame in
+    # between; the record must hold the described game once, not once per position command
+    gui_games = [g for g in gens.playouts(rng, [gens.START, "r3k2r/p1ppqpb1/bn2pnp1/3PN3/1p2P3/2N2Q1p/PPPBBPPP/R3K2R w KQkq - 0 1",
+                                                "4r1k1/ppp2ppp/8/8/8/8/5PPP/R5K1 w - - 0 1"], 3 if tier == "quick" else 30, 10) if len(g.moves) >= 6]
+    gui_games.append(type("G", (), {"start": "4r1k1/ppp2ppp/8/8/8/8/5PPP/R5K1 w - - 0 1", "moves": ["a1a5", "g8h8", "a5a1", "h8g8"]})())
+    for g in gui_games:
+        fresh = blackbox.Engine(V.BINARY)
+        used = blackbox.Engine(V.BINARY)
+        try:
+            fresh.handshake()
+            used.handshake()
+            for kk in range(2, len(g.moves), 2):
+                reply(used, pos_cmd(g.start, g.moves[:kk]), "go wtime 120 btime 120 movestogo 1")
+            final = pos_cmd(g.start, g.moves[: 2 * (len(g.moves) // 2)])
+            go = "go wtime 220 btime 220 movestogo 1"
+            ia = improvements(reply(fresh, final, go))
+            ib = improvements(reply(used, final, go))
+            o.evaluations += 2
+            kq = min(len(ia), len(ib))
+            if kq == 0 or ia[:kq] != ib[:kq]:
+                okr = False
+                j = next((x for x in range(kq) if ia[x] != ib[x]), 0)
+                o.violation("input", "after the same game was sent move by move (as GUIs do) the reply to `%s` differs from a fresh engine's at improvement %d: fresh %s, used %s" % (
+                    final, j, ia[j] if j < len(ia) else None, ib[j] if j < len(ib) else None), {"probe": final, "fresh": ia, "used": ib})
+            o.distinct += 1
+        finally:
+            fresh.close()
+            used.close()
+    return okr
+
+
 @prop("C16", "C16.v", THEOREMS["C16"], binary=True)
 def run_c16(o, tier, rng, prep):
     import blackbox
@@ -1591,38 +1723,7 @@ def run_c16(o, tier, rng, prep):
         finally:
             fresh.close()
             used.close()
-    # the repetition record must not survive a `position` command, with or without a move list:
-    # earlier traffic repeats positions that are one move away from the probed (bare) position
-    rep_probes = [
-        ("4k3/8/8/3q4/8/8/PPP5/2KR4 w - - 0 1", ["d1d5", "e8e7", "c1d1", "e7e8", "d1c1", "e8e7", "c1d1", "e7e8", "d1c1"]),
-        ("q7/8/2k5/8/8/8/8/7K w - - 0 1", ["h1g1", "a8b8", "g1h1", "b8a8", "h1g1", "a8b8", "g1h1", "b8a8"]),
-        ("6k1/8/8/8/8/8/8/K2Q4 w - - 0 1", ["d1d2", "g8h8", "d2d1", "h8g8", "d1d2", "g8h8", "d2d1", "h8g8"]),
-        (gens.START, ["g1f3", "g8f6", "f3g1", "f6g8", "g1f3", "g8f6", "f3g1", "f6g8"]),
-    ]
-    okr = True
-    for fen, shuffle in rep_probes:
-        bare = "position startpos" if fen == gens.START else "position fen " + fen
-        fresh = blackbox.Engine(V.BINARY)
-        used = blackbox.Engine(V.BINARY)
-        try:
-            fresh.handshake()
-            used.handshake()
-            reply(used, pos_cmd(fen, shuffle), "go wtime 130 btime 130 movestogo 1")
-            used.send("ucinewgame")
-            go = "go wtime 200 btime 200 movestogo 1"
-            ia = improvements(reply(fresh, bare, go))
-            ib = improvements(reply(used, bare, go))
-            o.evaluations += 2
-            k = min(len(ia), len(ib))
-            if k == 0 or ia[:k] != ib[:k]:
-                okr = False
-                j = next((x for x in range(k) if ia[x] != ib[x]), 0)
-                o.violation("input", "after a game with repetitions the reply to a bare `%s` differs from a fresh engine's at improvement %d: fresh %s, used %s" % (
-                    bare, j, ia[j] if j < len(ia) else None, ib[j] if j < len(ib) else None), {"traffic": pos_cmd(fen, shuffle), "probe": bare, "fresh": ia, "used": ib})
-            o.distinct += 1
-        finally:
-            fresh.close()
-            used.close()
+    okr = repetition_reset_probes(o, tier, rng)
     o.oblige("a bare position command after a game with repetitions is answered like a fresh engine (repetition record reset)", okr)
     o.oblige("zero-allowance bestmove identical to a fresh engine's after arbitrary traffic; repeat gives the same (%d probes)" % len(probes), ok)
     o.oblige("timed improvements (depth, nodes, score, first pv move) identical up to the shorter run", okt)
